@@ -39,7 +39,7 @@ ASSUMPTIONS = ["event filters in the configurations are stateless and determinis
 UNDEF = edzed.UNDEF
 NAN = float('nan')      # compares unequal to itself: every assignment of it is a change
 V = [0, False, 0.0, 1, True, 1.0, 2, None, (), (1,), 'a', [1], NAN]
-FILTERS = ['none', 'pass', 'edit', 'reject', 'mut', 'empty', 'strip', 'umap', 'emptyud']
+FILTERS = ['none', 'pass', 'edit', 'reject', 'mut', 'empty', 'strip', 'umap', 'emptyud', 'truthy']
 
 
 def configs(tier):
@@ -130,6 +130,8 @@ def make_filter(kind):
         return lambda data: collections.UserDict({**data, 'u': 3})
     if kind == 'emptyud':
         return lambda data: collections.UserDict()
+    if kind == 'truthy':    # the idiom "pass true values": any false result (0, 0.0, '', (), None) vetoes
+        return lambda data: data['value']
     return _mut
 
 
@@ -138,6 +140,8 @@ def apply_ref(kind, data):
         return None
     if kind in ('empty', 'strip', 'emptyud'):
         return {}
+    if kind == 'truthy':
+        return dict(data) if data['value'] else None
     data = dict(data)
     if kind == 'edit':
         data['x'] = 1
@@ -268,6 +272,11 @@ def run_history(cfg, hist):
             ext = edzed.ExtEvent(inp, 'put')
 
         holder['blk'] = blk
+        # the application goes on using the lists it passed as on_output / on_every_output
+        for lst in (on_output, on_every):
+            if isinstance(lst, list):
+                lst.reverse()
+                lst.clear()
 
         def deliveries(n0):
             return [(e, canon_data(d)) for (_t, _n, e, d, _o) in log[n0:]]
